@@ -397,9 +397,10 @@ class Interp:
         bound = {}
         for n, v in zip(names, pos):
             bound[n] = v
-        if a.vararg:
-            bound[a.vararg.arg] = PyTuple(pos[npos:])
         kw = dict(kwargs)
+        if a.vararg:
+            # an abstract *args value can be supplied by a task under the key "*name"
+            bound[a.vararg.arg] = kw.pop("*" + a.vararg.arg) if "*" + a.vararg.arg in kw else PyTuple(pos[npos:])
         for n in names[len(pos):]:
             if n in kw:
                 bound[n] = kw.pop(n)
